@@ -220,8 +220,9 @@ type C struct {
 }
 
 type fm struct {
-	srv jsonrpc.ServerOption
-	cli jsonrpc.Option
+	srv  jsonrpc.ServerOption
+	cli  jsonrpc.Option
+	name jsonrpc.MethodNameFormatter
 }
 
 func formatter(i int) fm {
@@ -238,7 +239,7 @@ func formatter(i int) fm {
 	default:
 		f = jsonrpc.DefaultMethodNameFormatter
 	}
-	return fm{jsonrpc.WithServerMethodNameFormatter(f), jsonrpc.WithMethodNameFormatter(f)}
+	return fm{jsonrpc.WithServerMethodNameFormatter(f), jsonrpc.WithMethodNameFormatter(f), f}
 }
 
 func symInner(tag string) *Inner {
@@ -292,6 +293,14 @@ func setup(h *H) (*C, func()) {
 	f := formatter(verif.Choice("formatter", verif.Bound("formatters", 2)))
 	srv := jsonrpc.NewServer(f.srv)
 	srv.Register("NS", h)
+	if verif.Bool("aliases_spelled_like_registered_methods") {
+		// aliases are fallbacks: an alias spelled like a registered method changes nothing,
+		// whether its target exists or not
+		for _, m := range []string{"Void", "ErrOnly", "Val1", "Two", "Ptr", "Struct", "Raw", "Lvl"} {
+			srv.AliasMethod(f.name("NS", m), "Gone."+m)
+		}
+		srv.AliasMethod(f.name("NS", "List"), f.name("NS", "Bytes"))
+	}
 	var c C
 	var closer jsonrpc.ClientCloser
 	var err error
